@@ -18,11 +18,18 @@ pub struct RecConnector {
     pub fail: bool,
     pub calls: Mutex<Vec<u64>>, // context ids
     pub order: Arc<Mutex<Vec<(String, u64)>>>,
+    /// hammer mode: only count invocations, without any lock that would serialise the callers
+    pub quiet: std::sync::atomic::AtomicBool,
+    pub count: AtomicUsize,
 }
 
 #[async_trait]
 impl Connector for RecConnector {
     async fn connect(self: Arc<Self>, _state: Arc<GlobalState>, ctx: ContextRef) -> Result<(), Error> {
+        if self.quiet.load(Ordering::Relaxed) {
+            self.count.fetch_add(1, Ordering::Relaxed);
+            return Ok(());
+        }
         let id = ctx.read().await.props().id;
         self.calls.lock().unwrap().push(id);
         self.order.lock().unwrap().push((self.name.clone(), id));
@@ -87,6 +94,8 @@ pub async fn make_world(connectors: &J, extra_yaml: &[String]) -> Result<World, 
             fail: spec["fail"].as_bool().unwrap_or(false),
             calls: Mutex::new(vec![]),
             order: order.clone(),
+            quiet: Default::default(),
+            count: Default::default(),
         });
         recs.insert(name.clone(), rc.clone());
         st.connectors.insert(name.clone(), rc);
@@ -220,6 +229,30 @@ async fn lb_case(c: &J) -> J {
     let tasks = c["tasks"].as_u64().unwrap() as usize;
     let per = c["per_task"].as_u64().unwrap() as usize;
     let reqs: Vec<J> = c["reqs"].as_array().unwrap().clone();
+    if let Some(n) = c.get("hammer").and_then(|x| x.as_u64()) {
+        // many OS threads, one context each, members that only count: nothing but the selection itself is contended
+        for r in w.recs.values() {
+            r.quiet.store(true, Ordering::Relaxed);
+        }
+        let mut hs = vec![];
+        for t in 0..tasks {
+            let (w, lb, req) = (w.clone(), lb.clone(), reqs[t % reqs.len()].clone());
+            hs.push(tokio::spawn(async move {
+                let (ctx, _ev) = make_ctx(&w, &req).await;
+                for k in 0..n {
+                    let _ = lb.clone().connect(w.state.clone(), ctx.clone()).await;
+                    if k % 1024 == 1023 {
+                        tokio::task::yield_now().await;
+                    }
+                }
+            }));
+        }
+        for h in hs {
+            h.await.unwrap();
+        }
+        let counts: serde_json::Map<String, J> = w.recs.iter().map(|(k, r)| (k.clone(), json!(r.count.load(Ordering::Relaxed)))).collect();
+        return json!({"id": c["id"], "load": "ok", "hammer": counts, "total": (tasks as u64) * n});
+    }
     let counter = Arc::new(AtomicUsize::new(0));
     let mut handles = vec![];
     for t in 0..tasks {
